@@ -140,9 +140,13 @@ def oracle(ctx, seeds=None):
                 mod = impl.euler.euler1d(gamma=gam_)
                 msh = impl.mesh.unimesh(ncell=200, length=2.0, x0=-1.0)
                 T = 0.3
-                W = cls(mod).primdata(msh, T)
-                ex = riemann_exact.sample(gam_, L, R, msh.centers() / T)
-                out.append((cls.__name__, gam_, [float(np.sum(np.abs(np.asarray(W[k]) - ex[k]) * msh.vol()) / np.sum(np.abs(ex[k]) * msh.vol() + 1e-300)) for k in range(3)]))
+                xc0 = np.array(msh.centers(), dtype=float).copy()
+                case = cls(mod)
+                for rep in range(2):          # evaluated twice on the same mesh object: the second answer is the same
+                    W = case.primdata(msh, T)
+                    ex = riemann_exact.sample(gam_, L, R, xc0 / T)
+                    out.append((cls.__name__ + (' (second evaluation on the same mesh)' if rep else ''), gam_,
+                                [float(np.sum(np.abs(np.asarray(W[k]) - ex[k]) * np.diff(msh.xf)) / np.sum(np.abs(ex[k]) * np.diff(msh.xf) + 1e-300)) for k in range(3)]))
         return out
     ok, out = impl.guarded(ref)
     res.case(('reference',))
@@ -152,6 +156,48 @@ def oracle(ctx, seeds=None):
         for (nm_, gam_, errs) in out:
             if max(errs) > 2e-3:
                 res.fail('reference:mismatch', "packaged %s solution (gamma=%r) differs from the independent exact solver: relative L1 (rho,u,p) = %r" % (nm_, gam_, errs), dict(kind='reference', gamma=gam_))
+    # ---- packaged quasi-1D nozzle reference (flowdyn.solution.euler_nozzle, wrapping aerokit): an exact steady solution has a
+    #      constant mass flow rho u A, constant total temperature, total pressure NPR*scale up to a possible shock and a
+    #      smaller constant value behind it, and (up to the fully expanded regime) the outlet pressure it was asked for
+    def nozref():
+        import flowdyn.solution.euler_nozzle as solN
+        def S(x):
+            return 1. - .5 * np.exp(-.5 * (x - 5.) ** 2)
+        out = []
+        for gam_ in (1.4, 1.3, 5.0 / 3.0):
+            model = impl.euler.nozzle(sectionlaw=S, gamma=gam_)
+            msh = impl.mesh.unimesh(ncell=int(rng.choice([60, 100, 150])), length=10.)
+            A = S(msh.centers())
+            rt0, sc0 = float(rng.choice([1.0, 2.5])), float(rng.choice([1.0, 0.4]))
+            for NPR in (1.02, 1.05, 1.1, 1.3, 1.6, 1.9):
+                with np.errstate(all='ignore'):
+                    nz = solN.nozzle(model, A, NPR=NPR, ref_rttot=rt0, scale_ps=sc0)
+                    rho, u, p = [np.asarray(x, dtype=float) for x in nz.primdata()]
+                M = u / np.sqrt(gam_ * p / rho)
+                mdot = rho * u * A
+                pt = p * (1 + .5 * (gam_ - 1) * M * M) ** (gam_ / (gam_ - 1))
+                rt = p / rho * (1 + .5 * (gam_ - 1) * M * M)
+                lv = np.unique(np.round(pt / (NPR * sc0), 7))
+                out.append(dict(gamma=gam_, NPR=NPR, rttot=rt0, scale=sc0,
+                                mdot=float((mdot.max() - mdot.min()) / abs(mdot.mean())), pout=float(p[-1] / sc0 - 1.0), ptin=float(pt[0] / (NPR * sc0) - 1.0),
+                                rt=float((rt.max() - rt.min()) / rt0), rt0=float(rt[0] / rt0 - 1.0), nlev=int(len(lv)), ptmax=float(lv.max() - 1.0)))
+        return out
+    ok, out = impl.guarded(nozref)
+    res.case(('reference-nozzle',))
+    if not ok:
+        res.fail('reference/nozzle:raised', out, dict(kind='reference-nozzle'))
+    else:
+        for o in out:
+            bad = []
+            if abs(o['mdot']) > 1e-6: bad.append("mass flow rho*u*A varies by %.3g relative along the nozzle" % o['mdot'])
+            if abs(o['pout']) > 1e-6: bad.append("outlet pressure differs from the requested one by %.3g relative" % o['pout'])
+            if abs(o['ptin']) > 1e-6: bad.append("inlet total pressure differs from NPR*scale by %.3g relative" % o['ptin'])
+            if abs(o['rt']) > 1e-9 or abs(o['rt0']) > 1e-9: bad.append("total temperature r*Ttot is not the requested constant (spread %.3g)" % o['rt'])
+            if o['nlev'] > 2 or o['ptmax'] > 1e-6: bad.append("total pressure takes %d values (max %.3g above the inlet value)" % (o['nlev'], o['ptmax']))
+            if bad:
+                res.fail('reference/nozzle:%s' % ('gamma=1.4' if o['gamma'] == 1.4 else 'gamma!=1.4'),
+                         "packaged nozzle reference (gamma=%r NPR=%r rttot=%r scale_ps=%r): %s" % (o['gamma'], o['NPR'], o['rttot'], o['scale'], "; ".join(bad)),
+                         dict(kind='reference-nozzle', gamma=o['gamma'], NPR=o['NPR']))
     return res
 
 
